@@ -20,6 +20,9 @@ pub struct TapeSpec {
     /// Some(n) = the first n bytes of the stream repeated forever (period n)
     #[serde(default)]
     pub period: Option<usize>,
+    /// constant generator producing this byte forever (e.g. the all-zero generator)
+    #[serde(default)]
+    pub const_byte: Option<u8>,
 }
 /// panic message prefix of a failing tape's infallible draw (recognised by the API monitor: an RNG failure, not a
 /// panic of the library)
@@ -60,6 +63,7 @@ pub struct Tape {
     alt: Option<(String, Stream, usize)>,
     /// degenerate generator (see TapeSpec::period)
     pub period: Option<usize>,
+    pub const_byte: Option<u8>,
     /// fault injection: draws reaching this byte position fail (try_fill_bytes -> Err, fill_bytes -> panic, as OsRng)
     pub fail_at: Option<usize>,
     /// absolute position (bytes drawn since the start of the stream)
@@ -70,7 +74,7 @@ pub struct Tape {
 
 impl Tape {
     pub fn new(label: &str) -> Self {
-        Tape { label: label.to_string(), main: Stream::new(label), alt: None, period: None, fail_at: None, pos: 0, log: vec![] }
+        Tape { label: label.to_string(), main: Stream::new(label), alt: None, period: None, const_byte: None, fail_at: None, pos: 0, log: vec![] }
     }
     /// tape for `label` derived from the global seed (VERIF_SEED)
     pub fn seeded(seed: u64, label: &str) -> Self {
@@ -88,7 +92,7 @@ impl Tape {
         t
     }
     pub fn spec(&self) -> TapeSpec {
-        TapeSpec { label: self.label.clone(), pos: self.pos, fork: self.alt.as_ref().map(|(l, _, a)| (l.clone(), *a)), fail_at: self.fail_at, period: self.period }
+        TapeSpec { label: self.label.clone(), pos: self.pos, fork: self.alt.as_ref().map(|(l, _, a)| (l.clone(), *a)), fail_at: self.fail_at, period: self.period, const_byte: self.const_byte }
     }
     pub fn from_spec(s: &TapeSpec) -> Self {
         let mut t = match &s.fork {
@@ -98,6 +102,13 @@ impl Tape {
         t.pos = s.pos;
         t.fail_at = s.fail_at;
         t.period = s.period;
+        t.const_byte = s.const_byte;
+        t
+    }
+    /// the generator that produces `b` forever
+    pub fn constant(b: u8) -> Self {
+        let mut t = Tape::new("constant");
+        t.const_byte = Some(b);
         t
     }
     /// a degenerate generator: constant (period 0 -> every byte equals byte 0 of the stream) or periodic
@@ -150,8 +161,9 @@ impl RngCore for Tape {
                 Some(n) => self.pos % n,
                 None => self.pos,
             };
-            *d = match &mut self.alt {
-                Some((_, s, at)) if i >= *at => s.byte(i),
+            *d = match (self.const_byte, &mut self.alt) {
+                (Some(c), _) => c,
+                (None, Some((_, s, at))) if i >= *at => s.byte(i),
                 _ => self.main.byte(i),
             };
             self.pos += 1;
